@@ -369,11 +369,12 @@ example : orientY (1 / 1000000 : ℚ) 1 ⟨0, 0, 1⟩ ⟨1, 0, 0⟩ =
 example : orientZ (1 / 1000000 : ℚ) 1 ⟨0, 1, 0⟩ ⟨1, 0, 0⟩ =
     .ok ⟨⟨1, 0, 0, 0⟩, ⟨0, 0, 1, 0⟩, ⟨0, -1, 0, 0⟩, ⟨0, 0, 0, 1⟩⟩ := by decide +kernel
 
-/-- With unit, mutually orthogonal arguments and `rho` the exact reciprocal length, `orient_z` returns a
-rotation: transpose = inverse and determinant 1 ("if `new_z` and `x` are unit vectors, the result is
-orthonormal", mat.rs:528 — orthogonality of the two is needed as well, see below). -/
+/-- With a unit `new_z` and `rho` the exact reciprocal length of `new_z × x`, `orient_z` returns a rotation:
+transpose = inverse and determinant 1 ("if `new_z` and `x` are unit vectors, the result is orthonormal",
+mat.rs:528). Neither orthogonality of `new_z` and `x` nor unit length of `x` is needed: `x` only enters through the
+normalised cross product. -/
 theorem orient_z_rotation (eps rho : K) (newZ x : V3 K) (m : M4 K) (h : orientZ eps rho newZ x = .ok m)
-    (hz : newZ.lenSqr = 1) (hzx : dot3 newZ x = 0)
+    (hz : newZ.lenSqr = 1)
     (hr : rho * rho * (cross newZ x).lenSqr = 1) :
     m.transpose.compose m = M4.identity ∧ m.det = 1 := by
   unfold orientZ normalize at h
@@ -384,7 +385,7 @@ theorem orient_z_rotation (eps rho : K) (newZ x : V3 K) (m : M4 K) (h : orientZ 
   subst h
   obtain ⟨a, b, c⟩ := newZ
   obtain ⟨x0, x1, x2⟩ := x
-  simp only [V3.lenSqr, dot3, cross] at hz hzx hr
+  simp only [V3.lenSqr, dot3, cross] at hz hr
   simp only [fromBasis, cross, V3.smul, M4.transpose, M4.col, V4.get, M4.compose, composeRow4, dot4,
     M4.identity, M4.det, M4.mk.injEq, V4.mk.injEq]
   -- y = (newZ × x)·rho is a unit vector orthogonal to newZ
@@ -402,10 +403,12 @@ theorem orient_z_rotation (eps rho : K) (newZ x : V3 K) (m : M4 K) (h : orientZ 
     | linear_combination hz
     | linear_combination (a * a + b * b + c * c) * hyy + hz - (y0 * a + y1 * b + y2 * c) * hyz
 
-example : (⟨0, 1, 0⟩ : V3 ℚ).lenSqr = 1 ∧ dot3 (⟨0, 1, 0⟩ : V3 ℚ) ⟨1, 0, 0⟩ = 0 ∧
-    (1 : ℚ) * 1 * (cross (⟨0, 1, 0⟩ : V3 ℚ) ⟨1, 0, 0⟩).lenSqr = 1 := by decide +kernel
+/-- Satisfiable with an auxiliary axis that is neither orthogonal to `new_z` nor of unit length. -/
+example : (⟨0, 1, 0⟩ : V3 ℚ).lenSqr = 1 ∧ dot3 (⟨0, 1, 0⟩ : V3 ℚ) ⟨3, 7, 4⟩ ≠ 0 ∧
+    (1 / 5 : ℚ) * (1 / 5) * (cross (⟨0, 1, 0⟩ : V3 ℚ) ⟨3, 7, 4⟩).lenSqr = 1 := by decide +kernel
 
-/-- Same for `orient_y` (`new_y` unit, `x ⟂ new_y`, `rho` the exact reciprocal length of `x × new_y`). -/
+/-- Same for `orient_y`: `new_y` unit and `rho` the exact reciprocal length of `x × new_y` suffice (no condition on the
+angle between `x` and `new_y` or on the length of `x`). -/
 theorem orient_y_rotation (eps rho : K) (newY x : V3 K) (m : M4 K) (h : orientY eps rho newY x = .ok m)
     (hy : newY.lenSqr = 1) (hr : rho * rho * (cross x newY).lenSqr = 1) :
     m.transpose.compose m = M4.identity ∧ m.det = 1 := by
@@ -440,9 +443,9 @@ example : (⟨0, 0, 1⟩ : V3 ℚ).lenSqr = 1 ∧
 
 /-- Rotations returned by `orient_*` under these hypotheses also satisfy `m · mᵀ = I`. -/
 theorem orient_z_rotation_right (eps rho : K) (newZ x : V3 K) (m : M4 K) (h : orientZ eps rho newZ x = .ok m)
-    (hz : newZ.lenSqr = 1) (hzx : dot3 newZ x = 0) (hr : rho * rho * (cross newZ x).lenSqr = 1) :
+    (hz : newZ.lenSqr = 1) (hr : rho * rho * (cross newZ x).lenSqr = 1) :
     m.compose m.transpose = M4.identity :=
-  Inverse.right_inverse_of_left_inverse m m.transpose (orient_z_rotation eps rho newZ x m h hz hzx hr).1
+  Inverse.right_inverse_of_left_inverse m m.transpose (orient_z_rotation eps rho newZ x m h hz hr).1
 
 /-! ### Gauss–Jordan inverse: the headline statements (proved in `Retro.Props.C09.Inverse`) -/
 
